@@ -144,11 +144,17 @@ def check_ungrouped(ctx: Ctx):
     prog = ctx.prog
     ev = build_evaluator(prog, "MATCHED_INSTANCE", None)
     f, runs = run_evaluate(prog, ev)
-    base = f"{f.qual}:no-groups"
-    if len(runs) != 1 or runs[0][0].decisions or runs[0][0].kind != "return":
-        ctx.undecided("R12.2", f, f.node, base, "ungrouped evaluation not evaluable")
-        return
-    out, (it, pred, ref) = runs[0]
+    base0 = f"{f.qual}:no-groups"
+    for out, (it, pred, ref) in runs:
+        facts = all(isinstance(d[1], Unknown) and str(d[1].tag).startswith("dtype-fact") for d in out.decisions)
+        base = base0 + ("[" + "; ".join(f"{d[1].tag}={d[2]}" for d in out.decisions)[:120] + "]" if out.decisions and facts else "")
+        if (out.decisions and not facts) or out.kind != "return":
+            ctx.undecided("R12.2", f, f.node, base, "ungrouped evaluation not evaluable")
+            continue
+        _judge_ungrouped(ctx, f, base, it)
+
+
+def _judge_ungrouped(ctx, f, base, it):
     calls = it.root.pipeline_calls
     ok = len(calls) == 1
     det = {}
